@@ -34,6 +34,7 @@ def run(ctx):
     c17_4(ctx)
     c17_5(ctx)
     c17_6(ctx)
+    c17_7(ctx)
 
 
 def minimal(i):
@@ -384,3 +385,53 @@ def c17_6(ctx):
         ctx.ob(R, "tree-hasher:embedded-hash", rows == {("return", "('Ok', 'self')")}, "a TreeHash embedded in a value stands for itself")
     else:
         ctx.missing(R, "tree-hasher:embedded-hash", "impl ToClvm<TreeHasher> for TreeHash not found")
+
+
+def c17_7(ctx):
+    """(a) memo keys: in tree_hash_cached the node recorded for memoisation (ConsAddCache(X)), the node asked
+    should_memoize / cache.get, and the node whose children are pushed are one and the same -- the node popped from the work
+    stack -- and cache.insert files the freshly computed pair hash under exactly that recorded node.  A key taken from anywhere
+    else (e.g. the function's root parameter) leaves a wrong hash in a reused cache.
+    (b) tree_hash_from_bytes has one accepting path: decode the whole buffer (back-references allowed) and return
+    tree_hash_cached of the decoded node with a fresh cache; no byte-level shortcut (the one-byte serialisation 0x80 is nil,
+    not the atom 0x80)."""
+    from .. import apnf
+    R = "C17.3"
+    b = U.body(ctx, R, TH + "tree_hash_cached")
+    if b:
+        popped = None
+        keys = {}
+        for bi, n, t in b.calls():
+            f = U.flat(n)
+            for nm in ("TreeCache::get", "TreeCache::should_memoize", "TreeCache::insert", "Allocator::node"):
+                if f.endswith(nm):
+                    keys.setdefault(nm.split("::")[-1], []).append(show(strip_all(b.operand_term(t["args"][1]))))
+        opsl = b.local_named("ops")
+        pushes = {}
+        if opsl:
+            for bi, name, args, pos in b.mut_history(opsl[0]):
+                if U.flat(name).endswith("Vec::push"):
+                    a = strip_all(args[1])
+                    if a[0] == "agg" and a[3]:
+                        pushes.setdefault(a[2], []).append(show(strip_all(a[3][0])))
+        node_ = (keys.get("node") or [None])[0]
+        ok = node_ is not None and node_.endswith("as SExp).0") and "Vec::pop" in node_ and \
+            keys.get("get") == [node_] and keys.get("should_memoize") == [node_] and pushes.get("ConsAddCache") == [node_] and \
+            len(keys.get("insert") or []) == 1 and keys["insert"][0] == node_.replace("as SExp).0", "as ConsAddCache).0")
+        ctx.ob(R, "memo-key", ok,
+               "the node examined (a.node), looked up (cache.get), asked should_memoize and recorded in ConsAddCache is the popped work item; "
+               "cache.insert uses the recorded node", found={k: [x[-60:] for x in v] for k, v in list(keys.items()) + [("ConsAddCache", pushes.get("ConsAddCache") or [])]},
+               where=b.fn.sp)
+    R = "C17.2"
+    b = U.body(ctx, R, TH + "tree_hash_from_bytes")
+    if b:
+        rows = set()
+        for ev, ex in P.enumerate_paths(b):
+            rows.add((ex[0], P.ret_class(ev) if ex[0] == "return" else "", str(apnf.N(P.ret_of(ev))) if ex[0] == "return" and P.ret_class(ev) == "Ok" else "",
+                      tuple(sorted((str(apnf.N(t)), str(l)) for t, l in P.conds(ev)))))
+        d = "('node_from_bytes_backrefs', ('Allocator::new',), 'buf')"
+        exp = {("return", "Ok", "('Ok', ('tree_hash_cached', ('after', %s), %s, ('default',)))" % (d, d), ((d, "('try', True)"),)),
+               ("return", "Err", "", ((d, "('try', False)"),))}
+        ctx.ob(R, "from-bytes:exact", rows == exp,
+               "tree_hash_from_bytes = tree_hash_cached(decode(buf), fresh cache); the only other exit is the decoder's error",
+               found=sorted(map(str, rows ^ exp))[:2] or None, where=b.fn.sp)
